@@ -30,7 +30,7 @@ class Bomb(BaseException):
     """raised by a source asked for more rows than the experiment allows"""
 
 
-class Src(object):
+class SrcBase(object):
     """a table container that counts what is pulled from it"""
 
     def __init__(self, n, seed, ragged=False, hdr=HDR, row=None, bomb=False):
@@ -50,6 +50,10 @@ class Src(object):
             yield self.row(i)
         if self.bomb:
             raise Bomb()
+
+
+Src = SrcBase          # run() adds a variant that is also a petl Table (so that len()/bool() on it iterate, as for any petl view)
+TableSrc = None
 
 
 class ListSrc(object):
@@ -141,6 +145,7 @@ def catalog(etl):
     add('split', lambda s: etl.split(s, 'b', '-', ['p', 'q']))
     add('splitdown', lambda s: etl.splitdown(s, 'b', '-'))
     add('unpack', lambda s: etl.unpack(etl.convert(s, 'b', lambda v: tuple(v.split('-'))), 'b', ['p', 'q']))
+    add('unpackdict-sampled', lambda s: etl.unpackdict(etl.convert(s, 'b', lambda v, row: {'w': v} if row.a < 2 else None, pass_row=True), 'b', samplesize=5), c=5)
     add('unpackdict', lambda s: etl.unpackdict(etl.convert(s, 'b', lambda v: {'w': v}), 'b', keys=['w']))
     add('fieldmap', lambda s: etl.fieldmap(s, OrderedDict([('x', 'a'), ('y', ('b', lambda v: v.upper())), ('z', lambda r: r.a + 1)])))
     add('rowmap', lambda s: etl.rowmap(s, lambda r: [r[0], r[1].upper()], header=['x', 'y']))
@@ -288,6 +293,8 @@ class BytesSrc(object):
 def run(ctx):
     import petl as etl
     from translators import ctor_purity
+    global TableSrc
+    TableSrc = type('TableSrc', (SrcBase, etl.Table), {})
     ctx.rule = ('every streaming operator of a %d-entry catalog (basics, conversions, selects, headers, fills, maps, regex, unpacks, '
                 'melt/flatten, hash joins and hash set operations on their streamed side, row accessors, progress/clock/cache/wrap, '
                 'tee* writers) and random compositions of 2-5 of them, over counting sources (regular and ragged) of 100 and 10000 rows '
@@ -318,8 +325,8 @@ def run(ctx):
     ks = list(range(0, 9))
     hows = ['islice', 'head', 'look', 'lookstr', 'see', 'repr']
 
-    def measure(build, n, seed, ragged, how, k):
-        s = Src(n, seed, ragged)
+    def measure(build, n, seed, ragged, how, k, cls=None):
+        s = (cls or Src)(n, seed, ragged)
         try:
             v = build(s)
         except Exception as e:   # noqa
@@ -330,8 +337,9 @@ def run(ctx):
 
     def check_pipeline(name, build, C, hdr_ok, seed, ragged, how, k, kind):
         case = {'pipeline': name, 'seed': seed, 'ragged': ragged, 'consumer': how, 'k': k}
-        s1, out1, ctor1, p1 = measure(build, N1, seed, ragged, how, k)
-        s2, out2, ctor2, p2 = measure(build, N2, seed, ragged, how, k)
+        cls = TableSrc if (seed + k) % 2 else SrcBase        # half of the cases: the source is itself a petl Table
+        s1, out1, ctor1, p1 = measure(build, N1, seed, ragged, how, k, cls)
+        s2, out2, ctor2, p2 = measure(build, N2, seed, ragged, how, k, cls)
         ctx.case((name, seed, ragged, how, k) if k >= 1 else None,
                  sample=dict(case, pulls=p2, out=out2[1][:200]) if k == 3 and len(ctx.samples) < 5 and ctx.evaluations % 97 == 0 else None)
         ctx.count('consumer:' + how)
@@ -370,7 +378,7 @@ def run(ctx):
         # minimality (theorem minimal_prefix): the rows produced while consuming one source row fewer are fewer than k.
         # The shortened source raises instead of ending, so only what the operator emits *while consuming* is counted.
         if p2 >= 1 and how == 'islice' and name not in NO_MIN:
-            s3 = Src(p2 - 1, seed, ragged, bomb=True)
+            s3 = cls(p2 - 1, seed, ragged, bomb=True)
             cnt = 0
             try:
                 it3 = iter(build(s3))
@@ -393,7 +401,7 @@ def run(ctx):
                'convert-where', 'convert-passrow', 'convert-failonerror-none', 'convertall', 'convertnumbers', 'replace', 'replaceall', 'update',
                'format', 'formatall', 'interpolate', 'interpolateall', 'rename', 'rename-dict', 'setheader', 'extendheader', 'pushheader',
                'prefixheader', 'suffixheader', 'sortheader', 'filldown', 'filldown-c', 'fillright', 'fillleft', 'sub', 'capture', 'split',
-               'splitdown', 'unpack', 'unpackdict', 'fieldmap', 'rowmap', 'rowmapmany', 'melt', 'hashleftjoin', 'hashlookupjoin', 'data',
+               'splitdown', 'unpack', 'unpackdict', 'unpackdict-sampled', 'fieldmap', 'rowmap', 'rowmapmany', 'melt', 'hashleftjoin', 'hashlookupjoin', 'data',
                'values', 'records', 'dicts', 'namedtuples', 'progress', 'clock', 'cache', 'wrap', 'teecsv', 'teetsv', 'teepickle', 'teetext',
                'teehtml'}
     seeds = [rng.randrange(1000) for _ in range(4 if ctx.thorough() else 1)]
@@ -432,7 +440,7 @@ def run(ctx):
         for k in ks:
             res = []
             for n in (N1, N2):
-                a, b = Src(n, 1), Src(n, 2)
+                a, b = TableSrc(n, 1), TableSrc(n, 2)
                 v = mk(a, b)
                 ctor = (a.pulls, b.pulls, a.hdr_pulls, b.hdr_pulls)
                 out = consume(etl, v, 'islice', k)
